@@ -30,6 +30,8 @@ impl Prop for C11Prop {
         // the strictly asserted domain: simple expressions, small indentation units
         v.push(Stream::random("simple", if q { 2500 } else { 30000 }, 700));
         v.push(Stream::random("simple_tight", if q { 2500 } else { 30000 }, 700));
+        // declaration sections only (records with variant parts, classes, enums, ...)
+        v.push(Stream::random("simple_decls_tight", if q { 1500 } else { 20000 }, 700));
         v
     }
     fn generate(&self, stream: &str, t: &mut Tape) -> Option<Case> {
@@ -44,7 +46,8 @@ impl Prop for C11Prop {
             std::mem::swap(&mut w1, &mut w2);
         }
         let simple = stream.starts_with("simple");
-        let opts = crate::gen::prog::Opts { ascii_only: true, simple, directives: !simple, ..Default::default() };
+        let decl_heavy = stream.contains("decls");
+        let opts = crate::gen::prog::Opts { ascii_only: true, simple, directives: !simple, decl_heavy, ..Default::default() };
         if simple {
             cfg.tab_width = *t.pick(&[2, 4, 2, 3, 1]);
             cfg.continuation_indents = *t.pick(&[2, 1, 2]);
@@ -55,7 +58,7 @@ impl Prop for C11Prop {
             None
         };
         let tight = stream.ends_with("tight");
-        let w = wf::build(t, if tight { 60 } else { wf::fuel_for(stream.trim_start_matches("simple")).min(90) }, opts, policy, None)?;
+        let w = wf::build(t, if tight { 60 } else { wf::fuel_for("prog").min(90) }, opts, policy, None)?;
         if !w.input.is_ascii() {
             return None;
         }
